@@ -37,19 +37,19 @@ func singleReturnValue(fn *ssa.Function) []ssa.Value {
 	return out
 }
 
-func c15Funnel(c *Ctx) {
+func c15FunnelRule(c *Ctx, rule string) {
 	R := c.R
 	swb := bufferFunnel(c)
 	san := c.P.Func(load.ModPath, "(*Policy).sanitize")
 	if swb == nil || san == nil {
-		R.Unknown("C15.R1", "funnel", "sanitizeWithBuff / sanitize", "", "not found")
+		R.Unknown(rule, "funnel", "sanitizeWithBuff / sanitize", "", "not found")
 		return
 	}
 	type ep struct{ name, trim, reader, conv string }
 	for _, e := range []ep{{"Sanitize", "strings.TrimSpace", "strings.NewReader", "(*bytes.Buffer).String"}, {"SanitizeBytes", "bytes.TrimSpace", "bytes.NewReader", "(*bytes.Buffer).Bytes"}} {
 		fn := c.P.Func(load.ModPath, "(*Policy)."+e.name)
 		if fn == nil {
-			R.Unknown("C15.R1", e.name, "(*Policy)."+e.name, "", "not found")
+			R.Unknown(rule, e.name, "(*Policy)."+e.name, "", "not found")
 			continue
 		}
 		A := model.NewAnalysis(fn)
@@ -65,7 +65,7 @@ func c15Funnel(c *Ctx) {
 		}
 		pos := c.P.Pos(fn.Pos())
 		if blank < 0 {
-			R.Fail("C15.R1", e.name+":blank-test", "(*Policy)."+e.name+": blank-input test", pos, "no test of "+e.trim+"("+param.Name()+") against empty found: whitespace-only input is not returned unchanged")
+			R.Fail(rule, e.name+":blank-test", "(*Policy)."+e.name+": blank-input test", pos, "no test of "+e.trim+"("+param.Name()+") against empty found: whitespace-only input is not returned unchanged")
 			continue
 		}
 		q, err := A.NewQuery([]int{blank})
@@ -85,7 +85,7 @@ func c15Funnel(c *Ctx) {
 			key := fmt.Sprintf("%s:return#%d", e.name, n)
 			if v == ssa.Value(param) {
 				ok1, cex := q.Holds(st, pa.AtomF(blank))
-				R.Check(ok1, "C15.R1", key, "(*Policy)."+e.name+": return of the parameter itself", c.P.Pos(ret.Pos()), "only for blank input", "the input is returned unsanitised for non-blank input: ["+cex+"]")
+				R.Check(ok1, rule, key, "(*Policy)."+e.name+": return of the parameter itself", c.P.Pos(ret.Pos()), "only for blank input", "the input is returned unsanitised for non-blank input: ["+cex+"]")
 				continue
 			}
 			// conv(sanitizeWithBuff(p, iface(reader(param))))
@@ -103,9 +103,9 @@ func c15Funnel(c *Ctx) {
 				}
 			}
 			ok2, cex := q.Holds(st, pa.Not(pa.AtomF(blank)))
-			R.Check(okF && ok2, "C15.R1", key, "(*Policy)."+e.name+": sanitising return", c.P.Pos(ret.Pos()), e.conv+"(sanitizeWithBuff("+e.reader+"(param))) for non-blank input", "the entry point transforms its input or output beyond the shared funnel ("+why+"; "+cex+")")
+			R.Check(okF && ok2, rule, key, "(*Policy)."+e.name+": sanitising return", c.P.Pos(ret.Pos()), e.conv+"(sanitizeWithBuff("+e.reader+"(param))) for non-blank input", "the entry point transforms its input or output beyond the shared funnel ("+why+"; "+cex+")")
 		}
-		R.Role("C15.R1", "returns of "+e.name, n, 2)
+		R.Role(rule, "returns of "+e.name, n, 2)
 	}
 	if fn := c.P.Func(load.ModPath, "(*Policy).SanitizeReader"); fn != nil {
 		ok := false
@@ -118,7 +118,7 @@ func c15Funnel(c *Ctx) {
 		if fn == swb {
 			ok = true // SanitizeReader is the funnel itself (judged below)
 		}
-		R.Check(ok, "C15.R1", "SanitizeReader", "(*Policy).SanitizeReader", c.P.Pos(fn.Pos()), "returns sanitizeWithBuff(r)", "does something other than returning sanitizeWithBuff(r)")
+		R.Check(ok, rule, "SanitizeReader", "(*Policy).SanitizeReader", c.P.Pos(fn.Pos()), "returns sanitizeWithBuff(r)", "does something other than returning sanitizeWithBuff(r)")
 	}
 	if fn := c.P.Func(load.ModPath, "(*Policy).SanitizeReaderToWriter"); fn != nil {
 		ok := false
@@ -128,7 +128,7 @@ func c15Funnel(c *Ctx) {
 				ok = true
 			}
 		}
-		R.Check(ok, "C15.R1", "SanitizeReaderToWriter", "(*Policy).SanitizeReaderToWriter", c.P.Pos(fn.Pos()), "returns sanitize(r, w)", "does something other than returning sanitize(r, w)")
+		R.Check(ok, rule, "SanitizeReaderToWriter", "(*Policy).SanitizeReaderToWriter", c.P.Pos(fn.Pos()), "returns sanitize(r, w)", "does something other than returning sanitize(r, w)")
 	}
 	// sanitizeWithBuff: sanitize(p, r, &buff) with buff a local bytes.Buffer, nothing else touches buff
 	{
@@ -155,8 +155,13 @@ func c15Funnel(c *Ctx) {
 				}
 			}
 		}
-		R.Check(ok, "C15.R1", "sanitizeWithBuff", "(*Policy).sanitizeWithBuff", c.P.Pos(swb.Pos()), "sanitize(r, &buff) on a fresh buffer that nothing else touches", why)
+		R.Check(ok, rule, "sanitizeWithBuff", "(*Policy).sanitizeWithBuff", c.P.Pos(swb.Pos()), "sanitize(r, &buff) on a fresh buffer that nothing else touches", why)
 	}
+}
+
+func c15Funnel(c *Ctx) {
+	R := c.R
+	c15FunnelRule(c, "C15.R1")
 	// R4
 	s, err := model.FindSan(c.P)
 	if err == nil {
